@@ -1,6 +1,6 @@
 """Sidecar contracts for the global-to-local copy (C20): crash Hoare logic over the abstract file system of pyvc.crashfs."""
 from pyvc.values import *  # noqa
-from pyvc.crashfs import SRC, DST, REL
+from pyvc.crashfs import SRC, DST, REL, LOCAL
 
 CI = ("implies(g_D and not g_S, g_U) and implies(g_E, g_S and g_C == 2) and implies(g_S, g_D) and implies(g_E, g_D) and "
       "implies(g_U, g_D and g_writes == 0 and not g_S and not g_E)")
@@ -22,17 +22,20 @@ POST = [
 ]
 
 
-def copy_contract(file, fn, result_ens):
+def copy_contract(file, fn, result_ens, with_relative):
     return dict(
         target=f"kappadata/copying/{file}::{fn}", merge=False,
-        params={"global_path": SRC, "local_path": DST, "relative_path": TOpt(REL), "num_workers": INT, "log_fn": TOpt(VAL)},
+        name=f"kappadata/copying/{file}::{fn}[{'relative_path' if with_relative else 'no-relative_path'}]",
+        # with a relative path the destination is a sub-folder of local_path (markers must live in it, not next to it)
+        params={"global_path": SRC, "local_path": LOCAL if with_relative else DST,
+                "relative_path": REL if with_relative else TNone(), "num_workers": INT, "log_fn": TOpt(VAL)},
         consts=CONSTS, ghost=GHOST, requires=REQ, asserts={0: "reject"},
         raises=("AssertionError", "NotImplementedError"),
         ensures=POST + result_ens,
     )
 
 
-FOLDER = copy_contract("folder.py", "copy_folder_from_global_to_local", [
+FOLDER_ENS = [
     # the returned result says truthfully what was done
     "iff(result.was_copied, g_nextract == 1 and g_writes > 0)",
     "iff(result.was_deleted, g_deleted)",
@@ -40,13 +43,29 @@ FOLDER = copy_contract("folder.py", "copy_folder_from_global_to_local", [
     "(result.source_format == 'zip') == (g_format == 2) and (result.source_format == 'zips') == (g_format == 3))",
     "implies(result.was_copied, g_format == (3 if (src_isdir and mostly_zips) else (1 if src_isdir else 2)))",
     "implies(not result.was_copied, g_nextract == 0 and not result.was_deleted)",
-])
-IMAGE_FOLDER = copy_contract("image_folder.py", "copy_imagefolder_from_global_to_local", [
+]
+IMAGE_ENS = [
     "iff(result.was_copied, g_nextract == 1 and g_writes > 0)",
     "iff(result.was_deleted, g_deleted)",
     "implies(result.was_copied, result.was_zip == (g_format == 2) and result.was_zip_classwise == (g_format == 3))",
     "implies(result.was_copied, g_format == (3 if (src_isdir and mostly_zips) else (1 if src_isdir else 2)))",
     "implies(not result.was_copied, g_nextract == 0 and not result.was_deleted and not result.was_zip and not result.was_zip_classwise)",
-])
+]
+CONTRACTS = [copy_contract("folder.py", "copy_folder_from_global_to_local", FOLDER_ENS, True),
+             copy_contract("folder.py", "copy_folder_from_global_to_local", FOLDER_ENS, False),
+             copy_contract("image_folder.py", "copy_imagefolder_from_global_to_local", IMAGE_ENS, True),
+             copy_contract("image_folder.py", "copy_imagefolder_from_global_to_local", IMAGE_ENS, False)]
 
-CONTRACTS = [FOLDER, IMAGE_FOLDER]
+RUN_UNZIP = dict(
+    target="kappadata/copying/copying_utils.py::run_unzip_jobs",
+    params={"jobargs": TSeq(TTuple([VAL, VAL]), mutable=False), "num_workers": INT},
+    ghost={"g_nunzip": (INT, "0"), "g_unzipped": (TSeq(VAL, mutable=False), None)},
+    requires=["len(g_unzipped) == 0"],
+    loops={0: dict(anchor="for src, dst in jobargs", index="i",
+                   invariant=["g_nunzip == i", "len(g_unzipped) == i",
+                              "forall(lambda t: implies(0 <= t and t < i, g_unzipped[t] == JobOf(jobargs[t][0], jobargs[t][1])))"])},
+    # every zip is extracted exactly once, whatever the number of workers
+    ensures=["g_nunzip == len(jobargs)", "len(g_unzipped) == len(jobargs)",
+             "forall(lambda t: implies(0 <= t and t < len(jobargs), g_unzipped[t] == JobOf(jobargs[t][0], jobargs[t][1])))"],
+)
+UNZIP_CONTRACTS = [RUN_UNZIP]
